@@ -44,6 +44,9 @@ type Spec struct {
 	SendChanCap int
 	TargetOnly  bool   // direct tunnel: tunnelUDPTargetOnly
 	Client      string // outgoing client: "" / direct, none, ss2022 (towards a harness upstream proxy)
+	// Wildcard makes the listener bind 0.0.0.0 (port derived from the pid), so that clients can reach it
+	// through several local addresses (127.A.B.1, 127.A.B.2, ...) and replies must leave from the same one.
+	Wildcard bool
 }
 
 // Env is one instance of the services.
@@ -67,6 +70,11 @@ func New(sp Spec) (*Env, error) {
 	pid := os.Getpid()
 	e := &Env{Spec: sp, A: byte(1 + (pid>>8)%250), B: byte(pid % 256)}
 	e.Server = netip.AddrPortFrom(e.IP(1), 5000)
+	listen := e.Server.String()
+	if sp.Wildcard {
+		e.Server = netip.AddrPortFrom(e.IP(1), uint16(10000+pid%50000))
+		listen = fmt.Sprintf("0.0.0.0:%d", e.Server.Port())
+	}
 	e.Tunnel = netip.AddrPortFrom(e.IP(101), 7000)
 	proto := map[string]string{"direct": "direct", "none": "none", "socks5": "socks5", "ss2022": "2022-blake3-aes-128-gcm"}[sp.Server]
 	if proto == "" {
@@ -77,7 +85,7 @@ func New(sp Spec) (*Env, error) {
 	}
 	srv := map[string]any{
 		"name": "s", "protocol": proto, "mtu": 1500,
-		"udpListeners": []map[string]any{{"network": "udp4", "address": e.Server.String(), "batchMode": sp.Batch, "natTimeout": sp.NATTimeout, "sendChannelCapacity": sp.SendChanCap}},
+		"udpListeners": []map[string]any{{"network": "udp4", "address": listen, "batchMode": sp.Batch, "natTimeout": sp.NATTimeout, "sendChannelCapacity": sp.SendChanCap}},
 	}
 	switch sp.Server {
 	case "direct":
@@ -168,6 +176,9 @@ type Client struct {
 	front int
 	raw   bool
 	Name  string
+	// Via is the relay address this client talks to (the listener's address, or one of the local addresses
+	// of a wildcard listener); replies must come from exactly this address.
+	Via netip.AddrPort
 }
 
 // NewClient opens harness client i (address 127.A.B.(10+i):6000+port).
@@ -179,7 +190,16 @@ func (e *Env) NewClient(i int, port uint16) *Client {
 // clients may share one IP address and differ only in the port).
 func (e *Env) NewClientAt(i int, ipLast byte, port uint16) *Client {
 	addr := netip.AddrPortFrom(e.IP(ipLast), 6000+port)
-	c := &Client{e: e, Addr: addr, Name: fmt.Sprintf("client%d", i)}
+	c := &Client{e: e, Addr: addr, Name: fmt.Sprintf("client%d", i), Via: e.Server}
+	c.Sock = vudp.Listen(addr.String(), c.Name)
+	c.newSession()
+	return c
+}
+
+// NewClientVia opens harness client i talking to the wildcard listener through local address 127.A.B.viaLast.
+func (e *Env) NewClientVia(i int, viaLast byte) *Client {
+	addr := netip.AddrPortFrom(e.IP(byte(10+i)), 6000)
+	c := &Client{e: e, Addr: addr, Name: fmt.Sprintf("client%d", i), Via: netip.AddrPortFrom(e.IP(viaLast), e.Server.Port())}
 	c.Sock = vudp.Listen(addr.String(), c.Name)
 	c.newSession()
 	return c
@@ -191,20 +211,20 @@ func (c *Client) newSession() {
 	case "direct":
 		c.raw = true
 	case "none":
-		_, s, err := direct.NewShadowsocksNoneUDPClient("h", "udp4", conn.AddrFromIPPort(e.Server), 1500, conn.ListenConfig{}).NewSession(context.Background())
+		_, s, err := direct.NewShadowsocksNoneUDPClient("h", "udp4", conn.AddrFromIPPort(c.Via), 1500, conn.ListenConfig{}).NewSession(context.Background())
 		if err != nil {
 			panic(err)
 		}
 		c.sess, c.front = s, 300
 	case "socks5":
-		c.sess = zerocopy.UDPClientSession{MaxPacketSize: 1472, Packer: direct.NewSocks5PacketClientPacker(e.Server, 1472), Unpacker: direct.NewSocks5PacketClientUnpacker(e.Server)}
+		c.sess = zerocopy.UDPClientSession{MaxPacketSize: 1472, Packer: direct.NewSocks5PacketClientPacker(c.Via, 1472), Unpacker: direct.NewSocks5PacketClientUnpacker(c.Via)}
 		c.front = 300
 	case "ss2022":
 		ccc, err := ss2022.NewClientCipherConfig(PSK, nil, true)
 		if err != nil {
 			panic(err)
 		}
-		_, s, err := ss2022.NewUDPClient("h", "udp4", conn.AddrFromIPPort(e.Server), 1500, conn.ListenConfig{}, 0, ccc, ss2022.NoPadding).NewSession(context.Background())
+		_, s, err := ss2022.NewUDPClient("h", "udp4", conn.AddrFromIPPort(c.Via), 1500, conn.ListenConfig{}, 0, ccc, ss2022.NoPadding).NewSession(context.Background())
 		if err != nil {
 			panic(err)
 		}
@@ -222,7 +242,7 @@ func (c *Client) Rebind(port uint16) {
 // Send packs payload for target and sends it to the relay.
 func (c *Client) Send(target conn.Addr, payload []byte) error {
 	if c.raw {
-		_, err := vudp.UDP_WriteToUDPAddrPort(c.Sock, payload, c.e.Server)
+		_, err := vudp.UDP_WriteToUDPAddrPort(c.Sock, payload, c.Via)
 		return err
 	}
 	buf := make([]byte, 4096)
@@ -237,13 +257,16 @@ func (c *Client) Send(target conn.Addr, payload []byte) error {
 
 // SendRaw sends bytes to the relay as they are.
 func (c *Client) SendRaw(b []byte) error {
-	_, err := vudp.UDP_WriteToUDPAddrPort(c.Sock, b, c.e.Server)
+	_, err := vudp.UDP_WriteToUDPAddrPort(c.Sock, b, c.Via)
 	return err
 }
 
 // Canon replaces this process's loopback prefix so that observations are
 // identical across processes.
 func (e *Env) Canon(s string) string {
+	if e.Spec.Wildcard {
+		s = strings.ReplaceAll(s, fmt.Sprintf(":%d", e.Server.Port()), ":wport")
+	}
 	return strings.ReplaceAll(s, fmt.Sprintf("127.%d.%d.", e.A, e.B), "127.a.b.")
 }
 
@@ -257,7 +280,7 @@ func (c *Client) Recv(d time.Duration) (src netip.AddrPort, payload []byte, err 
 	if err != nil {
 		return netip.AddrPort{}, nil, err
 	}
-	if from != c.e.Server {
+	if from != c.Via {
 		return from, nil, fmt.Errorf("reply from %v, not from the relay", from)
 	}
 	if c.raw {
